@@ -118,6 +118,16 @@ def run_property(pid, tier, seed):
         if base is None:
             undecided.append(f"{u}: no committed baseline of discharged obligations")
             continue
+        # functions whose changed text can no longer be turned into an obligation (does not compile in the unit):
+        # undecided for the verifier - but if the witness search finds a concrete failing input on the real code,
+        # the obligation that was discharged on the unchanged tree is reported as violated, with that witness
+        for fn, msgs in getattr(r, "uncompilable", {}).items():
+            bn = match_baseline(fn, base["obligations"])
+            if bn is None:
+                continue
+            violations.append({"unit": u, "fn": fn, "obligation": f"V:{u}:{bn}", "needs_witness": True,
+                               "diags": [{"message": "obligation can no longer be generated: the changed text of the function does not compile "
+                                                     "inside the verification unit (" + msgs[0] + ")", "spans": [], "rendered": "\n".join(msgs)}]})
         missing = [n for n in base["obligations"] if n not in r.obligations and "__finding_" not in n]
         if missing and not r.undecided:
             undecided.append(f"{u}: vacuity guard: obligations missing from this run: {missing[:5]}")
@@ -171,6 +181,8 @@ def run_property(pid, tier, seed):
             v["witness"] = replay.search_witness(pid, v, seed)
         except Exception as e:  # the search is not the deciding step
             v["witness_error"] = str(e)
+        if v.get("needs_witness") and not v.get("witness"):
+            continue  # already reported as UNDECIDED by the unit (does not compile); no failing input found
         lost = lost_hint_fns.get(v["unit"], set())
         if v["fn"].split("::")[-1] in lost and not v.get("witness"):
             # the function's text changed where proof hints were anchored, the hints were dropped and the
